@@ -39,6 +39,29 @@ func lruFieldOf(info *types.Info, e ast.Expr) string {
 	return ""
 }
 
+// lruHelperSet returns the unexported functions of cache/disk reachable from fi that the LRU
+// rules do not model as primitives: what a refactoring may have split off an anchor.
+func lruHelperSet(c *Ctx, fi *FuncInfo) (map[string]bool, []*ast.BlockStmt) {
+	modelled := map[string]bool{"disk.(*SizedLRU).removeElement": true, "disk.(*SizedLRU).appendEvictionToQueue": true,
+		"disk.(*SizedLRU).calcTotalDiskSizeAndUpdatePeak": true, "disk.roundUp4k": true, sumLargerKey(c.P): true,
+		"disk.(*SizedLRU).Add": true, "disk.(*SizedLRU).Reserve": true, "disk.(*SizedLRU).Unreserve": true}
+	set := map[string]bool{}
+	bodies := []*ast.BlockStmt{fi.Decl.Body}
+	seen := map[string]bool{fi.Key: true}
+	for i := 0; i < len(bodies) && i < 8; i++ {
+		for _, call := range callsIn(bodies[i], true) {
+			h := c.P.Func(calleeKey(fi.Pkg.TypesInfo, call))
+			if h == nil || seen[h.Key] || h.Pkg != fi.Pkg || ast.IsExported(h.Decl.Name.Name) || modelled[h.Key] || h.Decl.Body == nil {
+				continue
+			}
+			seen[h.Key] = true
+			set[h.Key] = true
+			bodies = append(bodies, h.Decl.Body)
+		}
+	}
+	return set, bodies
+}
+
 // sumLargerKey returns the key of the function playing the role of sumLargerThan.
 func sumLargerKey(p *Prog) string {
 	canonPred(p, "x")
@@ -219,59 +242,67 @@ func lruAccounting(c *Ctx) {
 		}
 		fl := c.P.FlowOf(fi)
 		l := &lruFlow{c: c, fn: key, loopCond: map[ast.Expr]bool{}, hlCond: map[ast.Expr]bool{}}
-		ast.Inspect(fi.Decl.Body, func(n ast.Node) bool {
-			switch n := n.(type) {
-			case *ast.ForStmt:
-				if n.Cond != nil {
-					for _, call := range callsIn(n.Body, false) {
-						if calleeKey(fi.Pkg.TypesInfo, call) == "disk.(*SizedLRU).removeElement" {
-							l.loopCond[n.Cond] = true
+		// helpers a refactoring may have split off are scanned and interpreted with the anchor
+		helperSet, scanBodies := lruHelperSet(c, fi)
+		isLruHelper := func(h *FuncInfo) bool { return helperSet[h.Key] }
+		for _, scanBody := range scanBodies {
+			ast.Inspect(scanBody, func(n ast.Node) bool {
+				switch n := n.(type) {
+				case *ast.ForStmt:
+					if n.Cond != nil {
+						for _, call := range callsIn(n.Body, false) {
+							if calleeKey(fi.Pkg.TypesInfo, call) == "disk.(*SizedLRU).removeElement" {
+								l.loopCond[n.Cond] = true
+							}
 						}
 					}
-				}
-			case *ast.IfStmt:
-				if strings.Contains(exprStr(n.Cond), "maxSizeHardLimit") {
-					l.hlCond[n.Cond] = true
-					// the rejecting branch returns 507
-					ok := false
-					ast.Inspect(n.Body, func(m ast.Node) bool {
-						if kv, k := m.(*ast.KeyValueExpr); k && exprStr(kv.Key) == "Code" && exprStr(kv.Value) == "http.StatusInsufficientStorage" {
-							ok = true
-						}
-						return true
-					})
-					R.Check(ok, "R17a", c.Cfg+key+":limit-branch:507", c.P.Pos(n.Pos()), "the hard-limit branch rejects with http.StatusInsufficientStorage", "the branch guarded by maxSizeHardLimit does not return a 507 cache.Error")
-					// shape of the test: limit > 0 && total > uint64(limit)
-					be, isAnd := ast.Unparen(n.Cond).(*ast.BinaryExpr)
-					shape := false
-					if isAnd && be.Op == token.LAND {
-						l1, ok1 := ast.Unparen(be.X).(*ast.BinaryExpr)
-						l2, ok2 := ast.Unparen(be.Y).(*ast.BinaryExpr)
-						if ok1 && ok2 && l1.Op == token.GTR && exprStr(l1.Y) == "0" && strings.HasSuffix(exprStr(l1.X), ".maxSizeHardLimit") &&
-							l2.Op == token.GTR && strings.Contains(exprStr(l2.Y), ".maxSizeHardLimit") {
-							shape = true
-							// the compared total is the result of calcTotalDiskSizeAndUpdatePeak(<size parameter>)
-							tot := identObj(fi.Pkg.TypesInfo, l2.X)
-							def := false
-							ast.Inspect(fi.Decl.Body, func(m ast.Node) bool {
-								if as, k := m.(*ast.AssignStmt); k && len(as.Lhs) == 1 && len(as.Rhs) == 1 && identObj(fi.Pkg.TypesInfo, as.Lhs[0]) == tot && tot != nil {
-									if call, k := as.Rhs[0].(*ast.CallExpr); k && calleeKey(fi.Pkg.TypesInfo, call) == "disk.(*SizedLRU).calcTotalDiskSizeAndUpdatePeak" && len(call.Args) == 1 {
-										if o := identObj(fi.Pkg.TypesInfo, call.Args[0]); o != nil && objID(o) == paramTerm(fl, 0) {
-											def = true
+				case *ast.IfStmt:
+					if strings.Contains(exprStr(n.Cond), "maxSizeHardLimit") {
+						l.hlCond[n.Cond] = true
+						// the rejecting branch returns 507
+						ok := false
+						ast.Inspect(n.Body, func(m ast.Node) bool {
+							if kv, k := m.(*ast.KeyValueExpr); k && exprStr(kv.Key) == "Code" && exprStr(kv.Value) == "http.StatusInsufficientStorage" {
+								ok = true
+							}
+							return true
+						})
+						R.Check(ok, "R17a", c.Cfg+key+":limit-branch:507", c.P.Pos(n.Pos()), "the hard-limit branch rejects with http.StatusInsufficientStorage", "the branch guarded by maxSizeHardLimit does not return a 507 cache.Error")
+						// shape of the test: limit > 0 && total > uint64(limit)
+						be, isAnd := ast.Unparen(n.Cond).(*ast.BinaryExpr)
+						shape := false
+						if isAnd && be.Op == token.LAND {
+							l1, ok1 := ast.Unparen(be.X).(*ast.BinaryExpr)
+							l2, ok2 := ast.Unparen(be.Y).(*ast.BinaryExpr)
+							if ok1 && ok2 && l1.Op == token.GTR && exprStr(l1.Y) == "0" && strings.HasSuffix(exprStr(l1.X), ".maxSizeHardLimit") &&
+								l2.Op == token.GTR && strings.Contains(exprStr(l2.Y), ".maxSizeHardLimit") {
+								shape = true
+								// the compared total is the result of calcTotalDiskSizeAndUpdatePeak(<size parameter>)
+								tot := identObj(fi.Pkg.TypesInfo, l2.X)
+								def := false
+								for _, sb := range scanBodies {
+									ast.Inspect(sb, func(m ast.Node) bool {
+										if as, k := m.(*ast.AssignStmt); k && len(as.Lhs) == 1 && len(as.Rhs) == 1 && identObj(fi.Pkg.TypesInfo, as.Lhs[0]) == tot && tot != nil {
+											if call, k := as.Rhs[0].(*ast.CallExpr); k && calleeKey(fi.Pkg.TypesInfo, call) == "disk.(*SizedLRU).calcTotalDiskSizeAndUpdatePeak" && len(call.Args) == 1 {
+												if o := identObj(fi.Pkg.TypesInfo, call.Args[0]); o != nil && sizeParamOf(c, fi, o) {
+													def = true
+												}
+											}
 										}
-									}
+										return true
+									})
 								}
-								return true
-							})
-							R.Check(def, "R17b", c.Cfg+key+":limit-operand", c.P.Pos(n.Pos()), "the value compared with the hard limit is calcTotalDiskSizeAndUpdatePeak(size) for the requested size", "the compared total is not derived from calcTotalDiskSizeAndUpdatePeak(size)")
+								R.Check(def, "R17b", c.Cfg+key+":limit-operand", c.P.Pos(n.Pos()), "the value compared with the hard limit is calcTotalDiskSizeAndUpdatePeak(size) for the requested size", "the compared total is not derived from calcTotalDiskSizeAndUpdatePeak(size)")
+							}
 						}
+						R.Check(shape, "R17a", c.Cfg+key+":limit-test-shape", c.P.Pos(n.Pos()), "the admission test is `limit > 0 && total > limit` (strict: a total equal to the limit is admitted; limit <= 0 disables)", "unrecognised or weakened hard-limit test: "+exprStr(n.Cond))
 					}
-					R.Check(shape, "R17a", c.Cfg+key+":limit-test-shape", c.P.Pos(n.Pos()), "the admission test is `limit > 0 && total > limit` (strict: a total equal to the limit is admitted; limit <= 0 disables)", "unrecognised or weakened hard-limit test: "+exprStr(n.Cond))
 				}
-			}
-			return true
-		})
+				return true
+			})
+		}
 		l.base = NewBase(Hooks{PreAssign: l.preAssign, Assign: l.assign, Cond: l.cond, EveryCall: l.everyCall, Exit: l.exit})
+		l.base.AutoInline = isLruHelper
 		l.eTerm = paramTerm(fl, 0)
 		x := NewExec(fl, l.base)
 		x.Run(newSt())
@@ -531,7 +562,7 @@ func (l *lruFlow) everyCall(x *Exec, call *ast.CallExpr, s St) []St {
 		}
 		if l.fn == "disk.(*SizedLRU).Reserve" {
 			R.Check(s.Get("hl") == "passed", "R17a", site+":after-limit", l.c.P.Pos(call.Pos()), "eviction in Reserve is dominated by the hard-limit test", "entries can be evicted for a request that is then refused (or before the limit was tested)", x.Trace()...)
-			size := paramTerm(x.Fn, 0)
+			size := rootParamTerm(x, 0)
 			big := relIs(s, "$recv.maxSize", "<", size, false)
 			sum := s.Get("p:disk.sumLargerThan("+size+",$recv.reservedSize,$recv.maxSize)") == "F"
 			R.Check(big && sum, "R05d", site+":after-oversize-tests", l.c.P.Pos(call.Pos()), "eviction in Reserve is dominated by the rejections size > maxSize and size + reserved > maxSize",
@@ -996,7 +1027,13 @@ func lruMisc(c *Ctx, want map[string]bool) {
 				if kv, ok := m.(*ast.KeyValueExpr); ok && exprStr(kv.Key) == "Code" && exprStr(kv.Value) == "http.StatusInsufficientStorage" {
 					fi := funcContaining(c.P, "/cache/disk", kv.Pos())
 					if fi != nil {
-						sites = append(sites, fi.Key)
+						k := fi.Key
+						if rf := c.P.Func("disk.(*SizedLRU).Reserve"); rf != nil {
+							if hs, _ := lruHelperSet(c, rf); hs[k] {
+								k = rf.Key // split off Reserve
+							}
+						}
+						sites = append(sites, k)
 					}
 				}
 				return true
@@ -1127,7 +1164,6 @@ func staleHandles(c *Ctx) {
 	R.Check(n >= 2, "R03e", c.Cfg+kAvail+":RemoveElement-sites", "", "both RemoveElement call sites of availableOrTryProxy were analysed", fmt.Sprintf("found %d", n))
 }
 
-
 // paramObj returns the object of the idx-th parameter of fi (nil if absent).
 func paramObj(fi *FuncInfo, idx int) types.Object {
 	i := 0
@@ -1162,4 +1198,34 @@ func lhsObjOfCall(fi *FuncInfo, callee string, idx int) types.Object {
 		return true
 	})
 	return out
+}
+
+// sizeParamOf: o is the first parameter of anchor fi, or a parameter of a helper of fi to which fi
+// (directly) passes its own first parameter.
+func sizeParamOf(c *Ctx, fi *FuncInfo, o types.Object) bool {
+	p0 := paramObj(fi, 0)
+	if o == p0 {
+		return true
+	}
+	info := fi.Pkg.TypesInfo
+	for _, call := range callsIn(fi.Decl.Body, true) {
+		h := c.P.Func(calleeKey(info, call))
+		if h == nil || h.Pkg != fi.Pkg {
+			continue
+		}
+		for i, a := range call.Args {
+			if identObj(info, a) == p0 && paramObj(h, i) == o {
+				return true
+			}
+		}
+	}
+	return false
+}
+
+// rootParamTerm is the term of parameter idx of the function at the root of the inlining chain.
+func rootParamTerm(x *Exec, idx int) string {
+	for x.Parent != nil {
+		x = x.Parent
+	}
+	return paramTerm(x.Fn, idx)
 }
